@@ -55,7 +55,7 @@ def cond_truthy_nonbool(row):
 
 CONDS = [cond_b_small, cond_s_has_a, cond_alt, cond_none, cond_truthy_nonbool]
 
-FIELDS = [('id', 'integer'), ('s', 'string'), ('b', 'integer'), ('n', 'number'), ('d', 'date')]
+FIELDS = [('id', 'integer'), ('s', 'string'), ('b', 'integer'), ('n', 'number'), ('d', 'date'), ('a', 'any')]
 S_POOL = ['a', 'ab', '', 'x', 'A', 'a ', None]
 N_POOL_NOTE = 'Decimal(1) and Decimal(1.0) are equal keys; -1/-2 and 0/2**61-1 collide only in hash()'
 B_POOL = [0, 1, 2, 3, 5, None, -1, -2, 2 ** 61 - 1]      # hash(-1) == hash(-2), hash(0) == hash(2**61-1)
@@ -63,9 +63,16 @@ N_POOL = [D('1'), D('1.0'), D('2.5'), None, D('-1')]
 D_POOL = [datetime.date(2020, 1, 1), datetime.date(2020, 1, 2), None]
 
 
+A_POOL = [True, False, 0, 1, 'x', None]        # an 'any' field: true and 1 are different values (as in JSON)
+
+
 def base_table(rng, rn, nrows):
-    return [{'id': i, 's': rng.choice(S_POOL), 'b': rng.choice(B_POOL), 'n': rng.choice(N_POOL),
+    rows = [{'id': i, 's': rng.choice(S_POOL), 'b': rng.choice(B_POOL), 'n': rng.choice(N_POOL),
              'd': rng.choice(D_POOL)} for i in range(nrows)]
+    rng_a = boot.rng('C17', 'any', rn, nrows, rows[0]['s'] if rows else '')
+    for r in rows:
+        r['a'] = rng_a.choice(A_POOL)
+    return rows
 
 
 def run_case(case):
@@ -190,6 +197,8 @@ def run_case(case):
             ref = lambda F, R: (F, refmodel.filter_rows(R, equals=eq, not_equals=neq))   # noqa: E731
         else:
             pk = rng.choice([['b'], ['s'], ['s', 'b'], ['n'], ['d', 'b'], ['id'], [], ['b', 's', 'n']])
+            if boot.rng(case['seed'], 'C17', 'anykey', case['idx']).random() < 0.2:
+                pk = [['a'], ['a', 's']][case['idx'] % 2]
             twice = rng.random() < 0.5
             pre = [d.set_primary_key(list(pk))]
             if len(pk) == 1 and rng.random() < 0.35:
